@@ -469,46 +469,168 @@ def escBody : Nat → Bytes → Bytes
 
 def jstr (s : Bytes) : Bytes := [34] ++ escBody s.length s ++ [34]
 
+/-- decimal digits, most significant first (fuel f suffices when n < 10^f) -/
+def decDigits : Nat → Nat → List Nat
+  | 0, _ => []
+  | f + 1, n => if n < 10 then [n] else decDigits f (n / 10) ++ [n % 10]
+
 /-- strconv.AppendUint(…, 10) -/
-def jnat (n : Nat) : Bytes := (Nat.toDigits 10 n).map (fun c => UInt8.ofNat c.toNat)
+def jnat (n : Nat) : Bytes := (decDigits (n + 1) n).map (fun d => UInt8.ofNat (48 + d))
 
-/-- `"name":` followed by the value, preceded by a comma unless first -/
-def member (first : Bool) (name : String) (v : Bytes) : Bytes :=
-  (if first then [] else asc ",") ++ jstr (asc name) ++ asc ":" ++ v
+/-- a member value of the two inner objects: a string or an unsigned number -/
+inductive FV where
+  | s (b : Bytes)
+  | n (v : Nat)
+  deriving DecidableEq, Repr, Inhabited
 
-/-- members of one object in struct order; `omit` drops the member (omitempty on an empty value) -/
-def object (ms : List (String × Bytes × Bool)) : Bytes :=
-  let kept := ms.filter (fun m => !m.2.2)
-  asc "{" ++ (kept.zipIdx.flatMap (fun (m, i) => member (i = 0) m.1 m.2.1)) ++ asc "}"
+/-- the zero value `omitempty` drops -/
+def FV.isZero : FV → Bool
+  | .s b => b.isEmpty
+  | .n v => v == 0
 
-/-- json.Marshal(k) for the structs as declared (names / order / omitempty are the generated tables `jsonKeystore`,
-    `jsonCrypto`, `jsonHdPath`; `render_follows_tags` below checks them against this function) -/
+def FV.text : FV → Bytes
+  | .s b => jstr b
+  | .n v => jnat v
+
+/-- one struct field as encoding/json sees it: member name, omitempty, unsigned integer (with its largest value) or string -/
+structure FSpec where
+  name : String
+  omitEmpty : Bool
+  isNat : Bool
+  max : Nat := 0
+  deriving DecidableEq, Repr
+
+/-- `"name":` preceded by a comma unless it is the first member written -/
+def pfx (first : Bool) (name : String) : Bytes := (if first then [] else [44]) ++ [34] ++ asc name ++ [34, 58]
+
+/-- the members of one object in struct order; an omitempty member with the zero value is skipped -/
+def renderMembers : List (FSpec × FV) → Bool → Bytes
+  | [], _ => []
+  | (f, v) :: r, first =>
+    if f.omitEmpty && v.isZero then renderMembers r first
+    else pfx first f.name ++ v.text ++ renderMembers r false
+
+def cryptoSpec : List FSpec :=
+  [⟨"version", true, true, 255⟩, ⟨"cipher", true, false, 0⟩, ⟨"entropyEnc", false, false, 0⟩, ⟨"kdf", true, false, 0⟩,
+   ⟨"pubParams", true, false, 0⟩, ⟨"privParams", false, false, 0⟩, ⟨"cryptoKeyPubEnc", true, false, 0⟩,
+   ⟨"cryptoKeyPrivEnc", true, false, 0⟩, ⟨"cryptoKeyEntropyEnc", false, false, 0⟩]
+
+def hdSpec : List FSpec :=
+  [⟨"Purpose", false, true, 4294967295⟩, ⟨"Coin", false, true, 4294967295⟩, ⟨"Account", false, true, 4294967295⟩,
+   ⟨"ExternalChildNum", false, true, 4294967295⟩, ⟨"InternalChildNum", false, true, 4294967295⟩]
+
+def cryptoVals (k : KeystoreJ) : List FV :=
+  [.n k.version, .s k.cipher, .s k.entropyEnc, .s k.kdf, .s k.pubParams, .s k.privParams, .s k.cryptoKeyPubEnc,
+   .s k.cryptoKeyPrivEnc, .s k.cryptoKeyEntropyEnc]
+
+def hdVals (k : KeystoreJ) : List FV :=
+  [.n k.purpose, .n k.coin, .n k.account, .n k.externalChildNum, .n k.internalChildNum]
+
+/-- json.Marshal(k) for the structs as declared: `{"remarks":…,"crypto":{…},"hdPath":{…}}` (names / order / omitempty /
+    integer types are compared with the generated struct tags by `render_follows_tags`) -/
 def render (k : KeystoreJ) : Bytes :=
-  object [
-    ("remarks", jstr k.remarks, false),
-    ("crypto", object [
-      ("version", jnat k.version, k.version = 0),
-      ("cipher", jstr k.cipher, k.cipher.isEmpty),
-      ("entropyEnc", jstr k.entropyEnc, false),
-      ("kdf", jstr k.kdf, k.kdf.isEmpty),
-      ("pubParams", jstr k.pubParams, k.pubParams.isEmpty),
-      ("privParams", jstr k.privParams, false),
-      ("cryptoKeyPubEnc", jstr k.cryptoKeyPubEnc, k.cryptoKeyPubEnc.isEmpty),
-      ("cryptoKeyPrivEnc", jstr k.cryptoKeyPrivEnc, k.cryptoKeyPrivEnc.isEmpty),
-      ("cryptoKeyEntropyEnc", jstr k.cryptoKeyEntropyEnc, false)], false),
-    ("hdPath", object [
-      ("Purpose", jnat k.purpose, false),
-      ("Coin", jnat k.coin, false),
-      ("Account", jnat k.account, false),
-      ("ExternalChildNum", jnat k.externalChildNum, false),
-      ("InternalChildNum", jnat k.internalChildNum, false)], false)]
+  asc "{\"remarks\":" ++ jstr k.remarks ++ asc ",\"crypto\":{" ++ renderMembers (cryptoSpec.zip (cryptoVals k)) true ++
+    asc "},\"hdPath\":{" ++ renderMembers (hdSpec.zip (hdVals k)) true ++ asc "}}"
 
 /-- the (json name, omitempty) lists `render` uses, to be compared with the generated struct tags -/
 def renderTags : List (String × Bool) × List (String × Bool) × List (String × Bool) :=
   ([("remarks", false), ("crypto", false), ("hdPath", false)],
-   [("version", true), ("cipher", true), ("entropyEnc", false), ("kdf", true), ("pubParams", true),
-    ("privParams", false), ("cryptoKeyPubEnc", true), ("cryptoKeyPrivEnc", true), ("cryptoKeyEntropyEnc", false)],
-   [("Purpose", false), ("Coin", false), ("Account", false), ("ExternalChildNum", false), ("InternalChildNum", false)])
+   cryptoSpec.map (fun f => (f.name, f.omitEmpty)), hdSpec.map (fun f => (f.name, f.omitEmpty)))
+
+/-! ### reading the canonical text back (the inverse of `render`; NOT a general JSON parser: no white space, members in
+    struct order, only the escapes encoding/json writes) -/
+
+def readLit (lit s : Bytes) : Option Bytes := if lit.isPrefixOf s then some (s.drop lit.length) else none
+
+/-- UTF-8 of a code point below 2^16 -/
+def utf8Enc (cp : Nat) : Bytes :=
+  if cp < 128 then [UInt8.ofNat cp]
+  else if cp < 2048 then [UInt8.ofNat (192 + cp / 64), UInt8.ofNat (128 + cp % 64)]
+  else [UInt8.ofNat (224 + cp / 4096), UInt8.ofNat (128 + cp / 64 % 64), UInt8.ofNat (128 + cp % 64)]
+
+/-- one unit of a string body: an escape or a raw byte; none at the closing quote, a control byte or an unknown escape -/
+def readTok : Bytes → Option (Bytes × Bytes)
+  | 92 :: 117 :: a :: b :: c :: d :: r =>
+    match hexVal? a, hexVal? b, hexVal? c, hexVal? d with
+    | some x, some y, some z, some w =>
+      let cp := ((x * 16 + y) * 16 + z) * 16 + w
+      if 55296 ≤ cp ∧ cp < 57344 then none else some (utf8Enc cp, r)
+    | _, _, _, _ => none
+  | 92 :: c :: r =>
+    if c = 34 ∨ c = 92 ∨ c = 47 then some ([c], r)
+    else if c = 98 then some ([8], r)
+    else if c = 102 then some ([12], r)
+    else if c = 110 then some ([10], r)
+    else if c = 114 then some ([13], r)
+    else if c = 116 then some ([9], r)
+    else none
+  | c :: r => if c = 34 ∨ c = 92 ∨ c.toNat < 32 then none else some ([c], r)
+  | [] => none
+
+def readStrBody : Nat → Bytes → Option (Bytes × Bytes)
+  | 0, _ => none
+  | _ + 1, [] => none
+  | f + 1, c :: r =>
+    if c = 34 then some ([], r)
+    else
+      match readTok (c :: r) with
+      | some (ch, r') => (readStrBody f r').map (fun p => (ch ++ p.1, p.2))
+      | none => none
+
+def readStr : Bytes → Option (Bytes × Bytes)
+  | 34 :: r => readStrBody (r.length + 1) r
+  | _ => none
+
+def isDigit (c : UInt8) : Bool := 48 ≤ c.toNat && c.toNat ≤ 57
+
+/-- a non-empty run of decimal digits with value ≤ max -/
+def readNat (max : Nat) (s : Bytes) : Option (Nat × Bytes) :=
+  let ds := s.takeWhile isDigit
+  if ds.isEmpty then none
+  else
+    let v := ds.foldl (fun a c => a * 10 + (c.toNat - 48)) 0
+    if v ≤ max then some (v, s.dropWhile isDigit) else none
+
+def FSpec.zero (f : FSpec) : FV := if f.isNat then .n 0 else .s []
+
+def readValue (f : FSpec) (s : Bytes) : Option (FV × Bytes) :=
+  if f.isNat then (readNat f.max s).map (fun p => (.n p.1, p.2)) else (readStr s).map (fun p => (.s p.1, p.2))
+
+def parseMembers : List FSpec → Bool → Bytes → Option (List FV × Bytes)
+  | [], _, s => some ([], s)
+  | f :: r, first, s =>
+    match readLit (pfx first f.name) s with
+    | some s1 =>
+      match readValue f s1 with
+      | some (v, s2) => (parseMembers r false s2).map (fun p => (v :: p.1, p.2))
+      | none => none
+    | none => if f.omitEmpty then (parseMembers r first s).map (fun p => (f.zero :: p.1, p.2)) else none
+
+/-- the inverse of `render` on the text `render` writes -/
+def parseKeystore (s : Bytes) : Option KeystoreJ := do
+  let s ← readLit (asc "{\"remarks\":") s
+  let (rem, s) ← readStr s
+  let s ← readLit (asc ",\"crypto\":{") s
+  let (cv, s) ← parseMembers cryptoSpec true s
+  let s ← readLit (asc "},\"hdPath\":{") s
+  let (hv, s) ← parseMembers hdSpec true s
+  let s ← readLit (asc "}}") s
+  if !s.isEmpty then none else
+  match cv, hv with
+  | [.n ver, .s cip, .s ent, .s kdf, .s pubp, .s privp, .s cpub, .s cpriv, .s cent], [.n pur, .n coin, .n acct, .n ex, .n inn] =>
+    some { remarks := rem, version := ver, cipher := cip, entropyEnc := ent, kdf := kdf, pubParams := pubp, privParams := privp,
+           cryptoKeyPubEnc := cpub, cryptoKeyPrivEnc := cpriv, cryptoKeyEntropyEnc := cent, purpose := pur, coin := coin,
+           account := acct, externalChildNum := ex, internalChildNum := inn }
+  | _, _ => none
+
+/-- every byte sequence that is valid UTF-8 survives Marshal → Unmarshal; others are replaced by U+FFFD -/
+def validUtf8 : Nat → Bytes → Bool
+  | 0, bs => bs.isEmpty
+  | _, [] => true
+  | fuel + 1, b :: r =>
+    match utf8Size (b :: r) with
+    | 0 => false
+    | n => validUtf8 fuel (r.drop (n - 1))
 
 /-! ### what ImportKeystore / allocAddrMgrNamespace read from a parsed keystore file -/
 
